@@ -7,47 +7,16 @@ makes the obligation finite.
 -/
 namespace SeaQ.Pratt
 
-/-- what the policy can see of a child -/
-inductive Kind where
-  | atom (cls : Nat)
-  | un
-  | bin (o : Nat)
-  | node (k : Nat)
-  deriving DecidableEq, Repr
-
-/-- atoms are numbered `8 * id + cls` -/
-def kindOf : Ex → Kind
-  | .atom a => .atom (a % 8)
-  | .un _ => .un
-  | .bin _ o _ => .bin o
-  | .node k _ => .node k
-
-/-- the observed policy: which (outer, child kind, side) cells drop the parentheses -/
-structure Cells where
-  dropL : Nat → Kind → Bool
-  dropR : Nat → Kind → Bool
-  dropN : Kind → Bool
-  /-- the crate's ternary encodings: `BETWEEN ↦ AND`, `LIKE ↦ ESCAPE` -/
-  mixOf : Nat → Option Nat
-  /-- first / second operand of a mixfix form, under the mixfix operator -/
-  dropML : Nat → Kind → Bool
-  dropMR : Nat → Kind → Bool
-
-def policyOf (c : Cells) : Policy :=
-  { dropL := fun o e => c.dropL o (kindOf e)
-    dropR := fun o e => c.dropR o (kindOf e)
-    dropN := fun e => c.dropN (kindOf e)
-    mixOf := c.mixOf
-    dropML := fun o e => c.dropML o (kindOf e)
-    dropMR := fun o e => c.dropMR o (kindOf e) }
-
 /-- the finite obligation, over the operators `ops` of the dialect -/
 structure TableOK (t : Tbl) (c : Cells) (ops : List Nat) : Prop where
   /-- table well-formedness -/
-  wf : ∀ j ∈ ops, t.lbp j ≤ t.rbp j ∧ t.lbp j ≤ t.rbp2 j
+  wf : ∀ j ∈ ops, ((t.mix j = none ∨ t.mand j = false) → t.lbp j ≤ t.rbp j) ∧
+    (t.mix j ≠ none → t.lbp j ≤ t.rbp2 j)
   /-- a dropped left child binds at least as tightly, is not re-absorbed, does not chain -/
   left : ∀ o ∈ ops, ∀ i ∈ ops, c.dropL o (.bin i) = true →
-    t.infx i = true ∧ t.lbp o ≤ t.lbp i ∧ t.lbp o < t.rbp i ∧ t.lbp o < t.rbp2 i ∧
+    t.infx i = true ∧ t.lbp o ≤ t.lbp i ∧
+    ((t.mix i = none ∨ t.mand i = false) → t.lbp o < t.rbp i) ∧
+    (t.mix i ≠ none → t.lbp o < t.rbp2 i) ∧
     ¬ (t.nonassoc o = true ∧ t.lbp i = t.lbp o)
   /-- a dropped right child fits the right operand level (regular reading) -/
   right : ∀ o ∈ ops, ∀ i ∈ ops, c.dropR o (.bin i) = true → t.mix o ≠ some i →
@@ -148,7 +117,7 @@ theorem AllGE.stops {t : Tbl} {c : Cells} {ops : List Nat} (hT : TableOK t c ops
     refine .binReg l o r hmp ?_ ?_ ihr
     · intro hi
       have := hq hi
-      have := (hT.wf o ho).1
+      have := (hT.wf o ho).1 hm
       omega
     · intro hmix
       rcases hm with h0 | h0
@@ -159,7 +128,67 @@ theorem AllGE.stops {t : Tbl} {c : Cells} {ops : List Nat} (hT : TableOK t c ops
     refine .binMix l o r a s b hmp ?_ ihb
     intro hi
     have := hq hi
-    have := (hT.wf o ho).2
+    obtain ⟨hpm, _⟩ := mixParts_some hmp
+    have := (hT.wf o ho).2 (by rw [hT.mixAgree o ho]; show (policyOf c).mixOf o ≠ none; rw [hpm]; simp)
     omega
+
+end SeaQ.Pratt
+
+namespace SeaQ.Pratt
+
+/-- the same obligation with every quantifier bounded by `ops`, hence decidable -/
+def TableOKD (t : Tbl) (c : Cells) (ops : List Nat) : Prop :=
+  (∀ j ∈ ops, ((t.mix j = none ∨ t.mand j = false) → t.lbp j ≤ t.rbp j) ∧
+    (t.mix j ≠ none → t.lbp j ≤ t.rbp2 j)) ∧
+  (∀ o ∈ ops, ∀ i ∈ ops, c.dropL o (.bin i) = true →
+    t.infx i = true ∧ t.lbp o ≤ t.lbp i ∧
+    ((t.mix i = none ∨ t.mand i = false) → t.lbp o < t.rbp i) ∧
+    (t.mix i ≠ none → t.lbp o < t.rbp2 i) ∧
+    ¬ (t.nonassoc o = true ∧ t.lbp i = t.lbp o)) ∧
+  (∀ o ∈ ops, ∀ i ∈ ops, c.dropR o (.bin i) = true → t.mix o ≠ some i →
+    t.infx i = true ∧ t.rbp o ≤ t.lbp i) ∧
+  (∀ o ∈ ops, t.mix o = c.mixOf o) ∧
+  (∀ o ∈ ops, t.mix o = none ∨ ∃ s ∈ ops, t.mix o = some s ∧ (t.infx s = true → t.lbp s < t.rbp o)) ∧
+  (∀ o ∈ ops, ∀ i ∈ ops, t.mix o ≠ none → c.dropML o (.bin i) = true →
+    t.infx i = true ∧ t.rbp o ≤ t.lbp i) ∧
+  (∀ o ∈ ops, ∀ i ∈ ops, t.mix o ≠ none → c.dropMR o (.bin i) = true →
+    t.infx i = true ∧ t.rbp2 o ≤ t.lbp i) ∧
+  (∀ o ∈ ops, ∀ j ∈ ops, t.mix o ≠ none → t.mix j = t.mix o → t.mand j = false →
+    t.lbp j < t.rbp o) ∧
+  (∀ j ∈ ops, ∀ s ∈ ops, t.mix j = some s → t.mand j = false → t.infx s = false) ∧
+  (∀ i ∈ ops, c.dropN (.bin i) = true → t.infx i = true ∧ t.nbp ≤ t.lbp i) ∧
+  (∀ o ∈ ops, c.dropL o .un = false ∧ c.dropR o .un = false ∧ c.dropML o .un = false ∧
+    c.dropMR o .un = false) ∧
+  c.dropN .un = false
+
+set_option synthInstance.maxSize 4096 in
+set_option synthInstance.maxHeartbeats 400000 in
+instance (t : Tbl) (c : Cells) (ops : List Nat) : Decidable (TableOKD t c ops) := by
+  unfold TableOKD; infer_instance
+
+theorem TableOK.ofD {t : Tbl} {c : Cells} {ops : List Nat} (h : TableOKD t c ops) :
+    TableOK t c ops := by
+  obtain ⟨h1, h2, h3, h4, h5, h6, h7, h8, h9, h10, h11, h12⟩ := h
+  have sepIn : ∀ o ∈ ops, ∀ s, t.mix o = some s → s ∈ ops ∧ (t.infx s = true → t.lbp s < t.rbp o) := by
+    intro o ho s hm
+    rcases h5 o ho with h0 | ⟨s', hs', hm', hl⟩
+    · rw [h0] at hm; cases hm
+    · rw [hm'] at hm; cases hm; exact ⟨hs', hl⟩
+  exact {
+    wf := h1
+    left := h2
+    right := h3
+    mixAgree := h4
+    mixSepOK := sepIn
+    mixL := fun o ho s hm i hi hd => h6 o ho i hi (by rw [hm]; simp) hd
+    mixR := fun o ho s hm i hi hd => h7 o ho i hi (by rw [hm]; simp) hd
+    mixSep := fun o ho j hj s hm hmj hmd => h8 o ho j hj (by rw [hm]; simp) (by rw [hm, hmj]) hmd
+    optSep := fun j hj s hm hmd => h9 j hj s (sepIn j hj s hm).1 hm hmd
+    notOp := h10
+    unL := fun o ho => (h11 o ho).1
+    unR := fun o ho => (h11 o ho).2.1
+    unN := h12
+    unML := fun o ho => (h11 o ho).2.2.1
+    unMR := fun o ho => (h11 o ho).2.2.2 }
 
 end SeaQ.Pratt
